@@ -13,10 +13,11 @@
                      | 8 h rexpr | 9 tgt | 10 h tgt | 11 h tgt | 12 tgt | 13 h tgt
               rexpr := 1 a | 2 k | 3 c n rexpr*n
    answer: [decoded; blocks equal; header indices of for-loops consistent;
-            1 when the program lies in the fragment of the theorem front_end_correct_e (good_stmts)] *)
+            1 when the program lies in the fragment of the theorem front_end_correct_e (good_stmts);
+            pruned blocks (rows 173, as 172) and entry (row 174: status entry) equal] *)
 From Coq Require Import List ZArith Bool.
 Import ListNotations.
-From V Require Import Valid.Hier Model.SrcE Model.SrcEProof.
+From V Require Import Valid.Hier Model.SrcE Model.SrcEProof Model.SrcEPrune.
 Local Open Scope Z_scope.
 
 Fixpoint parse_expr (fuel : nat) (l : list Z) : option (expr * list Z) :=
@@ -205,6 +206,11 @@ Definition b2z (b : bool) : Z := if b then 1 else 0.
 
 Definition run_srce (rows : list (list Z)) : list Z :=
   match program_of rows with
-  | None => [0; 0; 0; 0]
-  | Some p => [1; b2z (blocks_same (build p) (rows_of rows 172)); b2z (build_ok p); b2z (good_stmts p)]
+  | None => [0; 0; 0; 0; 0]
+  | Some p => [1; b2z (blocks_same (build p) (rows_of rows 172)); b2z (build_ok p); b2z (good_stmts p);
+               match rows_of rows 174, sprune (build p) 0 with
+               | [[0; e]], Some (G', e') => b2z (blocks_same G' (rows_of rows 173) && Z.eqb e e')
+               | [[1; _]], None => 1
+               | _, _ => 0
+               end]
   end.
